@@ -626,8 +626,9 @@ func TestVerifC43HLSSessions(t *testing.T) {
 		if w.cdn != "" {
 			extra += "hlsCDNSecret: " + w.cdn + "\n"
 		}
-		core, err := vcStartCore(vcCoreOpts{HLS: true, Extra: extra, Paths: "  cam1:\n  cam2:\n  cam3:\n"})
+		core, err := c43StartCore(vcCoreOpts{HLS: true, Extra: extra, Paths: "  cam1:\n  cam2:\n  cam3:\n"})
 		if err != nil {
+			fmt.Printf("VERIF-INCONCLUSIVE: the Core did not start (loopback ports taken by other processes?)\n")
 			t.Fatalf("harness: %v", err)
 		}
 		defer core.Stop()
@@ -1031,4 +1032,18 @@ func (w *c43World) genFetch(t *rapid.T) c43Fetch {
 		}
 	}
 	return f
+}
+
+// c43StartCore: the free-port probe of the shared helper races with every other process on a busy machine
+// (the port is released before the Core binds it); keep trying for a while before giving up.
+func c43StartCore(o vcCoreOpts) (*vcCore, error) {
+	var err error
+	for i := 0; i < 6; i++ {
+		var c *vcCore
+		if c, err = vcStartCore(o); err == nil {
+			return c, nil
+		}
+		time.Sleep(time.Duration(150*(i+1)) * time.Millisecond)
+	}
+	return nil, err
 }
